@@ -47,4 +47,18 @@ CHECKS["C02"] = {"text": "Proved on the model for every configuration, option se
     "the log entry is the live value at record time.",
     "note": COMMON_NOTE + " The division of a worker's skill by its number of WORKING assigned tasks is kept in the model as in the code; that this number is 1 follows from C03's exclusivity.",
     "technique": "Coq proof: phase-by-phase characterisation + inductive invariant + termination measure for the finishing fixpoint; model/implementation correspondence (remaining work, states, allocations at all phases)"}
+CHECKS["C03"] = {"text": "Proved on the model (for well-formed resource ids, every configuration, option set, run length): the allocation structure invariant AInv holds in every "
+    "observer snapshot and in the returned state -- a task lists a worker/facility iff that worker/facility lists the task, every worker and facility is assigned to at most "
+    "one task, no duplicates, only READY/WORKING tasks hold resources; finishing a task releases everything it held (workers/facilities become FREE with empty assignment); the id "
+    "logs are the live lists at record time. PARTIAL: the clause relating the WORKING/ABSENCE state of a resource to 'holds a task and is not absent' is not yet proved; it is "
+    "checked by the oracle on implementation traces and by the correspondence of all resource states at every phase.",
+    "note": COMMON_NOTE + " PARTIAL: clause (d) (resource state <-> holds a task and not absent) is searched, not proved.",
+    "technique": "Coq proof: inductive invariant through check_finished / __allocate (fold invariants with a free-list invariant) / check_working + oracle and correspondence on allocation lists and resource states"}
+CHECKS["C04"] = {"text": "Proved on the model: every worker newly allocated to a task in a step has a positive skill for it, belongs to a team assigned to it, is FREE after the step's "
+    "absence refresh (hence not absent), and is in the task's fixed worker list when there is one; every newly allocated facility has a positive skill, belongs to a workplace "
+    "assigned to the task, is FREE and in the fixed facility list when given; nothing is allocated at a project-wide absence step; in every snapshot of every run a solo-working "
+    "worker or facility is never combined with another one on a task, and for facility tasks workers and facilities are paired by position with the worker able to operate the "
+    "facility. Method: an induction principle for __allocate (Proofs/AllocStruct.v) instantiated with the eligibility and solo/pair predicates.",
+    "note": COMMON_NOTE,
+    "technique": "Coq proof: induction principle for __allocate + inductive invariant over runs; oracle on new allocations + correspondence of allocation lists at updated/allocated"}
 NOT_APPLICABLE = {}
